@@ -33,6 +33,7 @@ pub fn families() -> Vec<&'static dyn Family> {
         &nsim::names::NAMES,
         &nsim::mtls::MTLS,
         &nsim::stall::STALL,
+        &nsim::frames::HOSTILE_FRAMES,
     ]
 }
 
@@ -163,7 +164,7 @@ pub fn plan(property: &str) -> Option<CheckPlan> {
             assumptions: vec!["R part: frames reach the router already decoded (the codec is exercised by C05/C06 and by the N part)"],
             real: R_REAL.to_vec(),
             stubbed: R_STUB.to_vec(),
-            items: vec![PlanItem { family: &rsim::reqrep::RR_FRAMES, quick: 100_000, thorough: 3_000_000 }],
+            items: vec![PlanItem { family: &rsim::reqrep::RR_FRAMES, quick: 100_000, thorough: 3_000_000 }, PlanItem { family: &nsim::frames::HOSTILE_FRAMES, quick: 300, thorough: 15_000 }],
         }),
         "C05" => Some(CheckPlan {
             property: "C05",
@@ -216,7 +217,7 @@ pub fn plan(property: &str) -> Option<CheckPlan> {
             rule: "stream kind {publisher, subscriber, requestor, replier} x fault {H1 connection close, partition held for exactly k failed attempts (k = 0..max_attempts+1), server restart (down 0.1/2/8 s)} x 1..max_attempts+3 successive outages x backoff configuration (strategy, step 1 ms..1.5 s, 0-6 attempts, optional cap), drawn from VERIF_SEED; traffic runs continuously on the victim stream and a helper counterpart; non-trivial = at least one outage injected; distinct = distinct script bodies",
             assumptions: vec![
                 "messages sent during an outage are not owed; only traffic started >= 1 virtual second after the victim's successful_reconnection event (and after the heal) is judged",
-                "a replier may lose one attempt to REPLIER_ALREADY_BOUND while the server still tears down the old binding, so recovery is demanded of it only with one attempt to spare",
+                "a replier is refused (REPLIER_ALREADY_BOUND, charged to the same outage) for as long as the server holds its stale binding, so recovery is demanded of it only with an attempt to spare and, after a partition, only if the remaining schedule lasts >= 4 s; after a close only on a loss-free network",
                 "recovery after a server restart is demanded only with >= 3 attempts",
             ],
             real: N_REAL.to_vec(),
